@@ -98,9 +98,11 @@ func observeKey(raw string) (key string, sets []string, ok bool) {
 }
 
 // observeAllKeys fills in c.key for every case. Each shard observes its own slice of the grammar and
-// publishes it in the run's scratch directory; slices that do not show up in time are observed locally,
-// so the result never depends on the other shards. Returns how many observations this shard made.
-func observeAllKeys(t *testing.T, e *mc.Explorer, cases []*uCase, tag string) (made int, herr string) {
+// publishes it in the run's scratch directory and waits for the other slices until the check's time budget ends
+// (no shorter wall-clock limit: on a loaded machine a fixed wait made every shard observe the slices of its slower
+// peers itself, which slowed everything down further). A slice that is still missing then leaves its cases without
+// a key; the caller reports the run as not exhaustive and skips them. Returns how many observations this shard made.
+func observeAllKeys(t *testing.T, e *mc.Explorer, cases []*uCase, tag string) (made int, herr string, incomplete bool) {
 	observe := func(shard int) []string {
 		var lines []string
 		synctest.Test(t, func(t *testing.T) {
@@ -146,7 +148,10 @@ func observeAllKeys(t *testing.T, e *mc.Explorer, cases []*uCase, tag string) (m
 	name := func(s int) string { return filepath.Join(dir, fmt.Sprintf("%s-keys-%s-%d", tag, e.Tier, s)) }
 	_ = os.WriteFile(name(e.Shard)+".tmp", []byte(strings.Join(mine, "\n")), 0o644)
 	_ = os.Rename(name(e.Shard)+".tmp", name(e.Shard))
-	deadline := time.Now().Add(90 * time.Second)
+	deadline := e.Deadline
+	if deadline.IsZero() {
+		deadline = time.Now().Add(30 * time.Minute)
+	}
 	for s := 0; s < e.Shards; s++ {
 		if s == e.Shard {
 			continue
@@ -166,11 +171,11 @@ func observeAllKeys(t *testing.T, e *mc.Explorer, cases []*uCase, tag string) (m
 		if data != nil {
 			load(strings.Split(string(data), "\n"))
 		} else {
-			load(observe(s))
+			incomplete = true
 		}
 	}
 	for _, c := range cases {
-		if c.key == "" && herr == "" {
+		if c.key == "" && herr == "" && !incomplete {
 			herr = "key missing after exchange for " + c.raw
 		}
 	}
@@ -206,20 +211,26 @@ func customC03(t *testing.T, e *mc.Explorer) *mc.ShardResult {
 	res := e.Explore(t) // methods x Range product (standard explorer)
 	cases := uGrammar(e.Tier)
 	byKey := map[string][]*uCase{}
-	n, herr := observeAllKeys(t, e, cases, "c03")
+	n, herr, incomplete := observeAllKeys(t, e, cases, "c03")
 	if herr != "" {
 		res.HarnessErrs = append(res.HarnessErrs, herr)
 	}
 	res.Executions += int64(n)
 	res.Transitions += int64(3 * n)
 	for _, c := range cases {
-		byKey[c.key] = append(byKey[c.key], c)
+		if c.key != "" {
+			byKey[c.key] = append(byKey[c.key], c)
+		}
 	}
 	if res.Nontrivial == nil {
 		res.Nontrivial = map[string]int{}
 	}
 	if res.Notes == nil {
 		res.Notes = map[string]int{}
+	}
+	if incomplete {
+		res.Exhaustive = false
+		res.Notes["the time budget ended before every shard had published its slice of the key observations"]++
 	}
 	keys := make([]string, 0, len(byKey))
 	for k := range byKey {
@@ -229,6 +240,11 @@ func customC03(t *testing.T, e *mc.Explorer) *mc.ShardResult {
 	viol := map[string]*mc.Violation{}
 	pairs := 0
 	for _, k := range keys {
+		if !e.Deadline.IsZero() && time.Now().After(e.Deadline) { // the budget ended: report what was completed
+			res.Exhaustive = false
+			res.Notes["time budget ended inside the URI passes"]++
+			break
+		}
 		e.AddState("key", k)
 		if int(strHash(k))%e.Shards != e.Shard && e.Shards > 1 {
 			continue
@@ -293,6 +309,11 @@ func customC03(t *testing.T, e *mc.Explorer) *mc.ShardResult {
 			blocks[c.auth] = append(blocks[c.auth], c)
 		}
 		for _, id := range ids {
+			if !e.Deadline.IsZero() && time.Now().After(e.Deadline) { // the budget ended: report what was completed
+				res.Exhaustive = false
+				res.Notes["time budget ended inside the URI passes"]++
+				break
+			}
 			blk := blocks[id]
 			if order == "reverse" {
 				r := make([]*uCase, len(blk))
@@ -367,6 +388,11 @@ func customC03(t *testing.T, e *mc.Explorer) *mc.ShardResult {
 			blocks[c.auth] = append(blocks[c.auth], c)
 		}
 		for _, id := range ids {
+			if !e.Deadline.IsZero() && time.Now().After(e.Deadline) { // the budget ended: report what was completed
+				res.Exhaustive = false
+				res.Notes["time budget ended inside the URI passes"]++
+				break
+			}
 			blk := blocks[id]
 			synctest.Test(t, func(t *testing.T) {
 				w := world.New(world.Opt{})
